@@ -1,0 +1,24 @@
+//go:build verif
+
+package dijkstra
+
+// Contracts for /verif (contract-based deductive verification). Comment-only.
+
+// The Conway parameters carried by either parameter type.
+//@ func conwayPparams(pp) (r, err)
+//@   functional
+//@   props C32
+//@   ensures dj: dyn(pp) == type(*DijkstraProtocolParameters) ==> err == nil && r != nil
+//@   ensures cw: dyn(pp) == type(*conway.ConwayProtocolParameters) ==> err == nil && r == unbox(pp, type(*conway.ConwayProtocolParameters))
+//@   ensures other: dyn(pp) != type(*DijkstraProtocolParameters) && dyn(pp) != type(*conway.ConwayProtocolParameters) ==> err != nil
+
+// C32 (the fee is read through the Transaction interface in this era).
+//@ func UtxoValidateInsufficientCollateral(tx, slot, ls, pp) (err)
+//@   props C32
+//@   let ins = tx.Collateral()
+//@   let bal = common.collSum(ins, ls, len(ins)) - common.collReturnAmt(tx)
+//@   let fee = ite(tx.Fee() == nil, 0, val(tx.Fee()))
+//@   ensures types: conwayPparams$err(pp) != nil ==> err != nil
+//@   ensures exact: conwayPparams$err(pp) == nil && err == nil && redeemerCount(tx) != 0 ==> bal * 100 >= fee * N(conwayPparams$r(pp).CollateralPercentage)
+//@   cover accepts: conwayPparams$err(pp) == nil && err == nil && redeemerCount(tx) != 0 && len(ins) > 0
+//@   loop 0 invariant rangeindex < len(ins) && val(totalCollateral) == common.collSum(ins, ls, rangeindex + 1)
